@@ -36,44 +36,58 @@ def main(argv: list[str]) -> int:
             paths.extend(sorted(glob.glob(os.path.join(a, '**', 'patch.diff'), recursive=True)))
         else:
             paths.append(a)
+    import multiprocessing as mp
+
     clean = World('/repo')
-    base = {}
+    global _BASE, _PIDS
+    _PIDS = pids
+    _BASE = {}
     for pid in pids:
         ck = run_property(pid, clean)
-        base[pid] = ({o.key for o in ck.violations()}, {o.key for o in ck.incompletes()})
-    for patch in paths:
-        label = os.path.relpath(patch, '/tmp/wt/out') if patch.startswith('/tmp/wt/out') else patch
-        try:
-            world = world_with_patch('/repo', patch)
-        except AnalysisError as exc:
-            print(f'{label}: CANNOT APPLY ({exc})')
-            continue
-        hits = []
-        incs = []
-        for pid in pids:
-            try:
-                ck = run_property(pid, world)
-            except AnalysisError as exc:
-                incs.append(f'{pid}: ANALYSIS-ERROR {exc}')
-                continue
-            except Exception as exc:  # noqa: BLE001
-                incs.append(f'{pid}: CRASH {type(exc).__name__}: {exc}')
-                continue
-            new = sorted({o.key for o in ck.violations()} - base[pid][0])
-            newinc = sorted({o.key for o in ck.incompletes()} - base[pid][1])
-            floors = ck.floor_failures()
-            if new:
-                hits.append((pid, new))
-            if newinc or floors:
-                incs.append(f'{pid}: incomplete {newinc[:2]} floors {floors[:2]}')
-        status = 'CAUGHT' if hits else ('INCOMPLETE' if incs else 'MISSED')
-        print(f'{label}: {status}')
-        for pid, new in hits:
-            for k in new[:3]:
-                print(f'     {pid}: {k[:200]}')
-        for i in incs[:4]:
-            print(f'     ~ {i[:220]}')
+        _BASE[pid] = ({o.key for o in ck.violations()}, {o.key for o in ck.incompletes()})
+    with mp.get_context('fork').Pool(min(14, os.cpu_count() or 4)) as pool:
+        for text in pool.imap(_one, paths):
+            print(text, flush=True)
     return 0
+
+
+_BASE: dict = {}
+_PIDS: list = []
+
+
+def _one(patch: str) -> str:
+    label = patch
+    base, pids = _BASE, _PIDS
+    try:
+        world = world_with_patch('/repo', patch)
+    except AnalysisError as exc:
+        return f'{label}: CANNOT APPLY ({exc})'
+    hits = []
+    incs = []
+    for pid in pids:
+        try:
+            ck = run_property(pid, world)
+        except AnalysisError as exc:
+            incs.append(f'{pid}: ANALYSIS-ERROR {exc}')
+            continue
+        except Exception as exc:  # noqa: BLE001
+            incs.append(f'{pid}: CRASH {type(exc).__name__}: {exc}')
+            continue
+        new = sorted({o.key for o in ck.violations()} - base[pid][0])
+        newinc = sorted({o.key for o in ck.incompletes()} - base[pid][1])
+        floors = ck.floor_failures()
+        if new:
+            hits.append((pid, new))
+        if newinc or floors:
+            incs.append(f'{pid}: incomplete {newinc[:2]} floors {floors[:2]}')
+    status = 'CAUGHT' if hits else ('INCOMPLETE' if incs else 'MISSED')
+    lines = [f'{label}: {status}']
+    for pid, new in hits:
+        for k in new[:3]:
+            lines.append(f'     {pid}: {k[:200]}')
+    for i in incs[:4]:
+        lines.append(f'     ~ {i[:220]}')
+    return '\n'.join(lines)
 
 
 if __name__ == '__main__':
